@@ -240,12 +240,17 @@ Definition norm_profiles (ps : option (list profile)) : list profile :=
    q_metanl   : update_from_file replaces the line breaks of a continued value by blanks, but not those of a continued
                 metadata value (key:help = ...): a wrapped help text is read back with "\n" in it
    q_clear    : clear() empties the flattened view (and the variables) but not the per-profile data: every cleared
-                entry is back after the next update *)
-Record quirks : Set := { q_stale : bool; q_fbsect : bool; q_mkey : bool; q_fmt : bool; q_metanl : bool; q_clear : bool }.
+                entry is back after the next update
+   q_lead     : update_from_file: a value (or metadata value) whose first word does not fit on the first line is written
+                on continuation lines only; configparser joins "" and the continuation with a line break, midgard
+                turns it into a blank: the value is read back with a leading blank *)
+Record quirks : Set := { q_stale : bool; q_fbsect : bool; q_mkey : bool; q_fmt : bool; q_metanl : bool; q_clear : bool;
+                         q_lead : bool }.
 Definition all_off : quirks :=
-  {| q_stale := false; q_fbsect := false; q_mkey := false; q_fmt := false; q_metanl := false; q_clear := false |}.
+  {| q_stale := false; q_fbsect := false; q_mkey := false; q_fmt := false; q_metanl := false; q_clear := false;
+     q_lead := false |}.
 Definition all_on : quirks :=
-  {| q_stale := true; q_fbsect := true; q_mkey := true; q_fmt := true; q_metanl := true; q_clear := true |}.
+  {| q_stale := true; q_fbsect := true; q_mkey := true; q_fmt := true; q_metanl := true; q_clear := true; q_lead := true |}.
 
 Inductive err : Set := ErrSection | ErrEntry | ErrConfig | ErrValue | ErrParse.
 Inductive res (A : Type) : Type := Ok (a : A) | Err (e : err).
@@ -857,13 +862,18 @@ Definition parse_ini (case_sensitive : bool) (text : string) : res parsed :=
   end.
 
 (* _join_multiline_values: "\n".join(lines).rstrip(); midgard then replaces "\n" by " " *)
-Definition joined_value (ls : list string) : string :=
+Definition joined_raw (ls : list string) : string :=
   smap (fun a => if Ascii.eqb a nl then sp else a) (rstrip (join (s1 nl) ls)).
+(* specification: no leading blank either (a value that starts on a continuation line is joined as "\n" + value) *)
+Definition joined_value (ls : list string) : string := lstrip (joined_raw ls).
+Definition joined_value_q (q : quirks) (ls : list string) : string :=
+  if q_lead q then joined_raw ls else joined_value ls.
 
 Definition opt_value (v : option (list string)) : option string := option_map joined_value v.
+Definition opt_value_q (q : quirks) (v : option (list string)) : option string := option_map (joined_value_q q) v.
 (* metadata values: the same in the specification; the source keeps the line breaks *)
 Definition meta_value (q : quirks) (v : option (list string)) : option string :=
-  if q_metanl q then option_map (fun ls => rstrip (join (s1 nl) ls)) v else opt_value v.
+  if q_metanl q then option_map (fun ls => rstrip (join (s1 nl) ls)) v else opt_value_q q v.
 
 (* str.partition("__") *)
 Fixpoint partition_dunder (s : string) : string * bool * string :=
@@ -888,7 +898,7 @@ Definition file_item (q : quirks) (path : string) (rvars : list (string * string
                          if prefix_b (key ++ ":") (fst kv2)
                          then [(snd (partition_on colon (fst kv2)), meta_value q (snd kv2))] else [])
                       opts in
-    let value := match opt_value (snd kv) with None => Ok "None" | Some v => py_replace q rvars None v end in
+    let value := match opt_value_q q (snd kv) with None => Ok "None" | Some v => py_replace q rvars None v end in
     [match py_replace q rvars None key, value with
      | Ok k', Ok v' => Ok (Upd sec k' v' (if has_prof then Some prof else None) path m)
      | Err e, _ => Err e
@@ -1116,10 +1126,10 @@ Definition agrees (q : quirks) (k : case) : bool :=
 
 Definition quirks_of_mask (m : nat) : quirks :=
   {| q_stale := Nat.testbit m 0; q_fbsect := Nat.testbit m 1; q_mkey := Nat.testbit m 2; q_fmt := Nat.testbit m 3;
-     q_metanl := Nat.testbit m 4; q_clear := Nat.testbit m 5 |}.
+     q_metanl := Nat.testbit m 4; q_clear := Nat.testbit m 5; q_lead := Nat.testbit m 6 |}.
 
 (* subsets ordered by size, so that the smallest explanation is reported *)
-Definition masks : list nat := [1; 2; 4; 8; 16; 32; 3; 5; 6; 9; 10; 12; 17; 18; 20; 24; 33; 34; 36; 40; 48; 7; 11; 13; 14; 19; 21; 22; 25; 26; 28; 35; 37; 38; 41; 42; 44; 49; 50; 52; 56; 15; 23; 27; 29; 30; 39; 43; 45; 46; 51; 53; 54; 57; 58; 60; 31; 47; 55; 59; 61; 62; 63]%nat.
+Definition masks : list nat := [1; 2; 4; 8; 16; 32; 64; 3; 5; 6; 9; 10; 12; 17; 18; 20; 24; 33; 34; 36; 40; 48; 65; 66; 68; 72; 80; 96; 7; 11; 13; 14; 19; 21; 22; 25; 26; 28; 35; 37; 38; 41; 42; 44; 49; 50; 52; 56; 67; 69; 70; 73; 74; 76; 81; 82; 84; 88; 97; 98; 100; 104; 112; 15; 23; 27; 29; 30; 39; 43; 45; 46; 51; 53; 54; 57; 58; 60; 71; 75; 77; 78; 83; 85; 86; 89; 90; 92; 99; 101; 102; 105; 106; 108; 113; 114; 116; 120; 31; 47; 55; 59; 61; 62; 79; 87; 91; 93; 94; 103; 107; 109; 110; 115; 117; 118; 121; 122; 124; 63; 95; 111; 119; 123; 125; 126; 127]%nat.
 
 (* 0 = midgard equals the specification; 100+mask = equals the model with exactly these deviations switched on;
    1 = unexplained *)
